@@ -142,7 +142,7 @@ META["C12"] = {
             "(base+r+offset) mod unit = 0, otherwise AlignmentError; every borrowed part of an Ok result is aligned for its element type and inside the buffer. "
             "Non-trivial: a placement that is not 16-byte aligned; distinct = distinct (document, canonical value digest, residue)",
     "exhaustive_dimensions": ["base-address residue 0..128 per (document, value)"],
-    "sampled_dimensions": ["documents' values (which blocks exist: None/Some, empty/non-empty, units 1..32)"],
+    "sampled_dimensions": ["documents' values (which blocks exist: None/Some, empty/non-empty, units 1..128; the unit-128 documents exist so that residue 64 is distinguishable from 0)"],
     "expected_probes": ["byte_aligned_stream_ok_everywhere", "stream_with_empty_aligned_block_refused"],
     "real": REAL_COMMON + ["SliceWithPos::align and every ε-copy deserializer"],
     "stub": ["the placement of the buffer (arena owned by the simulator)"],
